@@ -41,7 +41,10 @@ RULE = ("bases of 1-5 shells, l 0..3, K 1-3 primitives, M 1-3 segmented contract
         "(k 4..24), a copy displaced by 2^-k (k 3..20), both, a generalized-contraction column that is another column "
         "plus 2^-k; 1-3 POSITIVE point charges q in 2^-6..100 on a centre / 2^-k from a centre / between centres / "
         "near / far (up to 1000 bohr); repulsion array only on bases of <= 25 functions (quick: l <= 2, <= 16 "
-        "functions) in chemists' or physicists' notation (transposed back). A case is non-trivial when the basis has "
+        "functions) in chemists' or physicists' notation (transposed back); family one-atom-far (quick 4, thorough 48 "
+        "cases): one atom at a 53-bit position 4..150 bohr per axis from the origin with a contracted f shell (two "
+        "exponents in 0.2..5) alone or with a p/d/f shell on the same centre (L = 11, 12 quartets, Boys arguments of "
+        "1e-31..1e-26 from product centres that differ by an ulp). A case is non-trivial when the basis has "
         ">= 2 functions; distinct by the hash of the exact input. Decision in exact rational arithmetic on the "
         "implementation's float entries; tolerances are the property's (1e-9 / 1e-6 of the largest eigenvalue or "
         "element; unit diagonal 1e-8 as in C01).")
@@ -575,6 +578,27 @@ def gen_cases(tier, seed):
                 "notation": "physicist" if i % 3 == 1 else "chemist", "tier": tier}
         case["cmp"] = bool(i % 2 == 0 and eri_model_affordable(basis, tier) and _in_c04_range(basis))
         cases.append(case)
+    # one atom at a general (53-bit) position 4..150 bohr per axis from the coordinate origin carrying a CONTRACTED f
+    # shell (two exponents in 0.2..5), alone or with a p / d / f shell: quartets with L = 11, 12 (Boys orders up to 12)
+    # whose product centres coincide mathematically and differ by an ulp in floating point (Boys arguments 1e-31..1e-26)
+    rng3 = random.Random(1000003 * seed + 1717)
+    for i in range(4 if quick else 48):
+        centre = [Fraction(rng3.choice([-1, 1]) * rng3.uniform(4.0, 150.0)) for _ in range(3)]
+        sph = i % 2 == 1
+        while True:
+            f = gen_shell(rng3, l=3, kmax=2, mmax=1, sph=sph, exp_lo=0.2, exp_hi=5.0, coord=list(centre))
+            if len(f.exps) == 2:
+                break
+        f.exps = [Fraction(float(e) * rng3.uniform(0.9, 1.1)) for e in f.exps]
+        basis = [f]
+        l2 = (None, 2, None, 1)[i % 4] if quick else (None, 2, 3, 1, None, 0)[i % 6]
+        if l2 is not None:
+            basis.append(gen_shell(rng3, l=l2, kmax=1, mmax=1, sph=sph if i % 3 else not sph, exp_lo=0.2, exp_hi=5.0,
+                                   coord=list(centre)))
+        if i % 5 == 4:
+            basis.reverse()
+        cases.append({"kind": "eri", "basis": [s.to_json() for s in basis], "geom": "one-atom-far", "dep": "-",
+                      "notation": "physicist" if i % 3 == 1 else "chemist", "tier": tier, "cmp": False})
     return cases
 
 
